@@ -59,6 +59,7 @@ def run(ctx):
         wakers.check_poll_fn(ctx, "R14.1", a.poll, sites)
     r09_6(ctx, ads)
     r09_11(ctx)
+    r09_16(ctx)
     # applicability / order of what is emitted also rests on the buffer discipline and on room-before-entry
     from . import groups, c15 as _c15
     groups.util_buffers(ctx)
@@ -585,3 +586,31 @@ def r09_14(ctx, a):
             else:
                 ctx.undecided("R09.14", f, "items-come-from-the-translator", where, "provenance of the returned item not recognised: %s" % fmt(x, 4))
     return n
+
+
+def r09_16(ctx):
+    """the limit / count may be any usize - `usize::MAX` is the natural "show everything" value - so no checked addition or
+    multiplication in the Head / Tail / Skip modules has the limit / count (or a value computed from it) as an operand: it
+    overflows (a panic in debug builds, a wrapped comparison in release builds) for a large limit. Lengths and indices are
+    bounded by the vector's length, their sums are fine. Expected count 0."""
+    F = ctx.facts
+    n = 0
+    bad = 0
+    limity = lambda x: (x[0] == "field" and x[2] in ("limit", "count")) or (x[0] == "param" and re.search(r"limit|count", str(x[2] or "")))
+    for f in F.find(crate=UT):
+        if not re.search(r"vector::(head|tail|skip)::", f.path) or not f.built:
+            continue
+        b = f.built
+        for loc, s_ in b.iter_stmts():
+            if s_["k"] == "assign" and s_["rv"]["k"] == "bin" and re.match(r"(Add|Mul)", s_["rv"]["op"]):
+                n += 1
+                l_, r_ = b.expr_of_op(s_["rv"]["l"]), b.expr_of_op(s_["rv"]["r"])
+                # a limit that went through min(.., len) / a comparison-bounded path is fine; a raw limit operand is not
+                raw = [e for e in (l_, r_) if contains(e, limity) and not contains(e, lambda y: y[0] == "call" and ecall_matches(y, r"::(min|len)$"))]
+                if raw:
+                    bad += 1
+                    ctx.violated("R09.16", root_fn(F, f), "no-overflowing-arithmetic-on-the-limit", b.line_at(loc),
+                                 "`%s` computes `%s` with the %s as an operand of a checked `%s`: for a limit near usize::MAX (limits beyond the length are allowed, usize::MAX is the usual \"no limit\") it overflows - a panic in debug builds, a wrong comparison in release builds" % (
+                                     f.path, fmt(b.expr_of_rv(s_["rv"], 6, ()), 4), "count" if "skip" in f.path else "limit", s_["rv"]["op"].replace("WithOverflow", "")))
+    if not bad:
+        ctx.holds("R09.16", None, "no-overflowing-arithmetic-on-the-limit", None, "%d checked additions / multiplications in the Head, Tail, Skip modules, none with the limit / count as an operand" % n)
